@@ -47,6 +47,8 @@ RULE = ("scenarios = sharding function x store pre-state (empty, shard directori
 def classify(fs):
     if fs[2] == "conc":
         return "conc:" + fs[1].split(",")[0]
+    if fs[2] == "two":
+        return "two-stores:" + fs[3] + ":" + fs[1].split(",")[0]
     return fs[3] + ":" + fs[1].split(",")[0] + ":" + fs[6].split("@")[0]
 
 
